@@ -560,6 +560,10 @@ fn reorder_value_only_runs_tracked(chain: Vec<Node>) -> (Vec<Node>, Vec<Optimiza
 
 /// Lift GBK->Combine pattern and track optimization decisions.
 fn lift_gbk_then_combine_tracked(chain: Vec<Node>) -> (Vec<Node>, Option<OptimizationDecision>) {
+    #[cfg(feature = "verif-hooks")]
+    if crate::verif_hooks::skip_lift() {
+        return (chain, None);
+    }
     if chain.len() < 2 {
         return (chain, None);
     }
